@@ -175,11 +175,8 @@ func (c *XAConn) createOnceTxContext(ctx context.Context) bool {
 	return onceTx
 }
 
-func (c *XAConn) createNewTxOnExecIfNeed(ctx context.Context, f func() (types.ExecResult, error)) (types.ExecResult, error) {
-	var (
-		tx  driver.Tx
-		err error
-	)
+func (c *XAConn) createNewTxOnExecIfNeed(ctx context.Context, f func() (types.ExecResult, error)) (ret types.ExecResult, err error) {
+	var tx driver.Tx
 
 	defer func() {
 		recoverErr := recover()
@@ -190,6 +187,10 @@ func (c *XAConn) createNewTxOnExecIfNeed(ctx context.Context, f func() (types.Ex
 				if rollbackErr != nil {
 					log.Errorf("conn at rollback error:%v", rollbackErr)
 				}
+			}
+			if recoverErr != nil {
+				// the caller must not see a nil result with a nil error
+				ret, err = nil, fmt.Errorf("xa exec panic: %v", recoverErr)
 			}
 		}
 	}()
@@ -203,7 +204,7 @@ func (c *XAConn) createNewTxOnExecIfNeed(ctx context.Context, f func() (types.Ex
 	}
 
 	// execute SQL
-	ret, err := f()
+	ret, err = f()
 	if err != nil {
 		// XA End & Rollback
 		if rollbackErr := c.Rollback(ctx); rollbackErr != nil {
@@ -214,11 +215,9 @@ func (c *XAConn) createNewTxOnExecIfNeed(ctx context.Context, f func() (types.Ex
 
 	if tx != nil && currentAutoCommit {
 		if err = c.Commit(ctx); err != nil {
+			// the branch could not be ended / prepared and has been rolled back: the statement failed
 			log.Errorf("xa connection proxy commit failure xid:%s, err:%v", c.txCtx.XID, err)
-			// XA End & Rollback
-			if err := c.Rollback(ctx); err != nil {
-				log.Errorf("xa connection proxy rollback failure xid:%s, err:%v", c.txCtx.XID, err)
-			}
+			return nil, err
 		}
 	}
 
@@ -332,24 +331,26 @@ func (c *XAConn) Commit(ctx context.Context) error {
 	}
 
 	now := time.Now()
-	if c.end(ctx, xa.TMSuccess) != nil {
-		return c.commitErrorHandle(ctx)
+	if err := c.end(ctx, xa.TMSuccess); err != nil {
+		return c.commitErrorHandle(ctx, err)
 	}
 
-	if c.checkTimeout(ctx, now) != nil {
-		return c.commitErrorHandle(ctx)
+	if err := c.checkTimeout(ctx, now); err != nil {
+		return c.commitErrorHandle(ctx, err)
 	}
 
-	if c.xaResource.XAPrepare(ctx, c.xaBranchXid.String()) != nil {
-		return c.commitErrorHandle(ctx)
+	if err := c.xaResource.XAPrepare(ctx, c.xaBranchXid.String()); err != nil {
+		return c.commitErrorHandle(ctx, err)
 	}
 	return nil
 }
 
-func (c *XAConn) commitErrorHandle(ctx context.Context) error {
-	var err error
-	if err = c.XaRollback(ctx, c.xaBranchXid); err != nil {
-		err = fmt.Errorf("failed to report XA branch commit-failure xid:%s, err:%w", c.txCtx.XID, err)
+// commitErrorHandle rolls the branch back after a failed end / prepare; the failure is always
+// returned, the caller's statement (or Commit) did not succeed
+func (c *XAConn) commitErrorHandle(ctx context.Context, cause error) error {
+	err := fmt.Errorf("failed to end and prepare XA branch xid:%s, err:%w", c.txCtx.XID, cause)
+	if rollbackErr := c.XaRollback(ctx, c.xaBranchXid); rollbackErr != nil {
+		err = fmt.Errorf("failed to report XA branch commit-failure xid:%s, err:%v, cause:%w", c.txCtx.XID, rollbackErr, cause)
 	}
 	c.cleanXABranchContext()
 	return err
@@ -360,7 +361,8 @@ func (c *XAConn) ShouldBeHeld() bool {
 }
 
 func (c *XAConn) checkTimeout(ctx context.Context, now time.Time) error {
-	if now.Sub(c.branchRegisterTime) > xaConnTimeout {
+	// a zero timeout means that no limit has been configured
+	if xaConnTimeout > 0 && now.Sub(c.branchRegisterTime) > xaConnTimeout {
 		c.XaRollback(ctx, c.xaBranchXid)
 		return fmt.Errorf("XA branch timeout error xid:%s", c.txCtx.XID)
 	}
